@@ -138,6 +138,15 @@ fn run_case(case: &Value) -> Value {
             .iter()
             .filter(|n| pats.iter().any(|p| p.is_match(n)))
             .collect();
+        // identifier tags only (member / namespaced tags are never custom elements): what "uses a pattern" means for C14
+        let mut ident_names: Vec<String> = vec![];
+        collect_ident_tag_names(&serde_json::to_value(&input).unwrap(), &mut ident_names);
+        ident_names.sort();
+        ident_names.dedup();
+        let pat_ident_names: Vec<&String> = ident_names
+            .iter()
+            .filter(|n| pats.iter().any(|p| p.is_match(n)))
+            .collect();
 
         let diags = Arc::new(Mutex::new(Vec::<String>::new()));
         let handler = Handler::with_emitter(true, false, Box::new(Collect(diags.clone())));
@@ -155,6 +164,7 @@ fn run_case(case: &Value) -> Value {
             "unresolved_ctxt": unresolved_ctxt.as_u32(),
             "known": known_names,
             "patmatch": pat_names,
+            "patmatch_ident": pat_ident_names,
         });
         let leading: Vec<Value> = leading_comments(&input, &comments);
         rec["comments"] = Value::Array(leading);
@@ -235,6 +245,27 @@ fn leading_comments(m: &Module, comments: &SingleThreadedComments) -> Vec<Value>
         }
     }
     out
+}
+
+fn collect_ident_tag_names(v: &Value, out: &mut Vec<String>) {
+    match v {
+        Value::Object(map) => {
+            if map.get("type").and_then(|t| t.as_str()) == Some("JSXOpeningElement") {
+                if let Some(name) = map.get("name") {
+                    if name.get("type").and_then(|t| t.as_str()) == Some("Identifier") {
+                        if let Some(s) = name.get("value").and_then(|s| s.as_str()) {
+                            out.push(s.to_string())
+                        }
+                    }
+                }
+            }
+            for (_, c) in map {
+                collect_ident_tag_names(c, out);
+            }
+        }
+        Value::Array(a) => a.iter().for_each(|c| collect_ident_tag_names(c, out)),
+        _ => {}
+    }
 }
 
 fn collect_tag_names(v: &Value, out: &mut Vec<String>) {
